@@ -206,12 +206,23 @@ def run_tlc(ctx, p: Program, *, avoid=ALL_AVOID, invariants=(), properties=(), d
         res.wall_s = meta["wall_s"]
         res.cached = True
         return res, cache
-    wd = tlc.prepare_dir(cache, ["batchdb"], {f"{name}.tla": mod, f"{name}.cfg": cfg})
+    # computed in a directory of this process and renamed into the cache when complete: checks may run side by side
+    import os
+
+    tmp = BUILD / "tlc_cache" / f".tmp-{os.getpid()}-{p.name}-{tag}-{key}"
+    wd = tlc.prepare_dir(tmp, ["batchdb"], {f"{name}.tla": mod, f"{name}.cfg": cfg})
     res = tlc.run(wd, name, f"{name}.cfg", workers=workers or min(ctx.workers, 6 if ctx.quick else 12), coverage=False, dump="graph" if dump else None,
                   simulate=simulate, depth=depth, timeout=timeout if ctx.quick else max(timeout, 20000))
     res.cached = False
     if simulate is None:
-        (cache / "done.json").write_text(json.dumps({"wall_s": res.wall_s}))
+        (wd / "done.json").write_text(json.dumps({"wall_s": res.wall_s}))
+        try:
+            if cache.exists():
+                shutil.rmtree(cache, ignore_errors=True)
+            os.rename(wd, cache)
+            wd = cache
+        except OSError:
+            pass            # another process published the same result meanwhile: keep using our own copy
     return res, wd
 
 
